@@ -60,10 +60,11 @@ type NodeDevice struct {
 
 // ArchiveDecoder is used to decode a catar archive.
 type ArchiveDecoder struct {
-	d    FormatDecoder
-	dir  string
-	last interface{}
-	root bool // the root entry, the only one without a filename, has been decoded
+	d         FormatDecoder
+	dir       string
+	last      interface{}
+	root      bool // the root entry, the only one without a filename, has been decoded
+	rootIsDir bool // the root entry is a directory, only then can entries follow it
 }
 
 // NewArchiveDecoder initializes a decoder for a catar archive.
@@ -170,6 +171,15 @@ loop:
 	// it, including the directory the archive is extracted to.
 	if name == "" && a.root {
 		return nil, InvalidFormat{"entry without filename in archive"}
+	}
+	// Entries with a filename live in a directory. If the root of the archive
+	// is a file, symlink or device there's nothing they could be placed in, a
+	// root symlink would have them written to wherever it points.
+	if name != "" && a.root && !a.rootIsDir {
+		return nil, InvalidFormat{"entry outside of a directory in archive"}
+	}
+	if !a.root {
+		a.rootIsDir = payload == nil && device == nil && symlink == nil
 	}
 	a.root = true
 
